@@ -24,13 +24,17 @@ var _ tmconsensus.SignatureScheme = SimpleSignatureScheme{}
 func (s SimpleSignatureScheme) WriteProposalSigningContent(
 	w io.Writer, h tmconsensus.Header, round uint32, pbAnnotations tmconsensus.Annotations,
 ) (int, error) {
+	// The block hash covers every other header field
+	// (validator set hashes, previous commit proof, header annotations),
+	// so including it binds the signature to exactly this header.
 	n, err := fmt.Fprintf(w, `PROPOSAL:
 Height=%d
 Round=%d
+BlockHash=%x
 PrevBlockHash=%x
 PrevAppStateHash=%x
 DataID=%x
-`, h.Height, round, h.PrevBlockHash, h.PrevAppStateHash, h.DataID)
+`, h.Height, round, h.Hash, h.PrevBlockHash, h.PrevAppStateHash, h.DataID)
 	if err != nil {
 		return n, err
 	}
